@@ -127,6 +127,15 @@ Section C01.
     last (serve_hist re_match re_replace ip_allow sv (pre ++ [(m, rq)])%list) (Panicked, None)
       = (Dispatched (pe_backend p) path', Some h).
   Proof. exact (mapper_history_dispatch re_match re_replace ip_allow). Qed.
+  (** the router matches, rewrites and keys its cache on the DECODED path (URL.Path) only: two
+      requests that differ only in their wire encoding (URL.RawPath: %2F, %41 ...) are answered
+      alike and share the cache key *)
+  Theorem C01_rawpath_irrelevant : forall sv a b,
+    (rq_host a = rq_host b /\ rq_method a = rq_method b /\ rq_path a = rq_path b /\
+     rq_headers a = rq_headers b /\ rq_ip a = rq_ip b) ->
+    serve_nocache re_match re_replace ip_allow sv a = serve_nocache re_match re_replace ip_allow sv b /\
+    (forall q, mk_key q a = mk_key q b).
+  Proof. exact (rawpath_irrelevant re_match re_replace ip_allow). Qed.
 End C01.
 
 Print Assumptions C01_loop_refines_spec.
@@ -143,6 +152,7 @@ Print Assumptions C01_port_ignored.
 Print Assumptions C01_valid_never_panics.
 Print Assumptions C01_mapper_history_503.
 Print Assumptions C01_mapper_history_dispatch.
+Print Assumptions C01_rawpath_irrelevant.
 
 (** non-vacuity: a concrete rule set on which the clauses are exercised:
     first match skips a header-conditioned entry, 400 / 405 / 404 / 503, prefix and regexp rewrite *)
@@ -161,7 +171,7 @@ Example C01_nonvacuous :
                                               e "" "" "^/r" [] "/s" "D" [];
                                               e "/h" "" "" [] "" "A" [ {| hc_key := "X"; hc_values := ["v1"]; hc_regexp := "" |} ] ] |} ];
                sv_backends := ["A"; "B"; "C"] |} in
-  let rq h m p hs ip := {| rq_host := h; rq_method := m; rq_path := p; rq_headers := hs; rq_ip := ip |} in
+  let rq h m p hs ip := {| rq_host := h; rq_method := m; rq_path := p; rq_rawpath := ""; rq_headers := hs; rq_ip := ip |} in
   valid_server sv = true /\
   map (serve_nocache re rep ipa sv)
       [ rq "a.com:80" "GET" "/a" [("X", "v1")] "1.1.1.1"; rq "a.com" "GET" "/a" [] "1.1.1.1";
